@@ -90,6 +90,7 @@ def ofDType (s : String) : Except String DType :=
   | "integer" => pure .integer
   | "string" => pure .string
   | "date" => pure .date
+  | "float" => pure .float
   | _ => throw s!"bad datatype {s}"
 
 def ofVal (j : Json) : Except String Val :=
@@ -212,6 +213,32 @@ def handleComposed (j : Json) : Except String Json := do
     | .ok r => pure (Json.mkObj [("parse", pj),
         ("rows", Json.mkObj [("ok", jList (jList optCps) r.rows), ("ordered", Json.bool r.ordered)])])
 
+/-- one query: parser/select on tokens, the spelling check, the composition with C08, the lexer -/
+def answerQuery (j : Json) : Except String Json := do
+  let r0 ← handleQuery j
+  -- the generator's words: are they spellings (`spells`) of the tokens the lexer model finds?
+  let r ← match j.getObjVal? "words" with
+    | .error _ => pure r0
+    | .ok wj => do
+      let ws ← (← wj.getArr?).toList.mapM ofCps
+      let ok := match lexLine (ws.length + 2) (renderW (ws ++ [['.']])) with
+        | .error _ => false
+        | .ok ts =>
+          let ps := (ws ++ [['.']]).zip ts
+          ts.length = ws.length + 1 && ps.all (fun p => spells p.1 p.2) && seqOKW ps
+      pure (r0.mergeObj (Json.mkObj [("spelled", Json.bool ok)]))
+  let r ← match j.getObjVal? "rawdb" with
+    | .error _ => pure r
+    | .ok _ => do pure (r.mergeObj (Json.mkObj [("composed", ← handleComposed j)]))
+  match j.getObjVal? "text" with
+  | .error _ => pure r
+  | .ok t => do
+    let text ← ofCps t
+    let lx := match lexAll (splitLines (text ++ ['.'])) with
+      | .error e => jErr (errTag e)
+      | .ok ts => jOk (jList jLTok ts)
+    pure (r.mergeObj (Json.mkObj [("lex", lx)]))
+
 def handle (j : Json) : Except String Json := do
   let op ← getStr j "op"
   match op with
@@ -221,38 +248,16 @@ def handle (j : Json) : Except String Json := do
     let rx ← j.getObjVal? "rx"
     let steps ← getArr j "steps"
     let answers ← steps.mapM (fun st => do
-      let toks ← st.getObjVal? "toks"
-      handleQuery (Json.mkObj [("toks", toks), ("db", db), ("rx", rx)]))
+      -- every step is a full query request (tokens, words, text) against the shared database
+      answerQuery (st.mergeObj (Json.mkObj ([("db", db), ("rx", rx)] ++
+        (match j.getObjVal? "rawdb" with | .ok r => [("rawdb", r)] | .error _ => [])))))
     pure (Json.mkObj [("steps", Json.arr answers.toArray)])
   | "lex" => do
     let text ← getCps j "text"
     match lexAll (splitLines (text ++ ['.'])) with
     | .error e => pure (jErr (errTag e))
     | .ok ts => pure (jOk (jList jLTok ts))
-  | "query" => do
-    let r0 ← handleQuery j
-    -- the generator's words: are they spellings (`spells`) of the tokens the lexer model finds?
-    let r ← match j.getObjVal? "words" with
-      | .error _ => pure r0
-      | .ok wj => do
-        let ws ← (← wj.getArr?).toList.mapM ofCps
-        let ok := match lexLine (ws.length + 2) (renderW (ws ++ [['.']])) with
-          | .error _ => false
-          | .ok ts =>
-            let ps := (ws ++ [['.']]).zip ts
-            ts.length = ws.length + 1 && ps.all (fun p => spells p.1 p.2) && seqOKW ps
-        pure (r0.mergeObj (Json.mkObj [("spelled", Json.bool ok)]))
-    let r ← match j.getObjVal? "rawdb" with
-      | .error _ => pure r
-      | .ok _ => do pure (r.mergeObj (Json.mkObj [("composed", ← handleComposed j)]))
-    match j.getObjVal? "text" with
-    | .error _ => pure r
-    | .ok t => do
-      let text ← ofCps t
-      let lx := match lexAll (splitLines (text ++ ['.'])) with
-        | .error e => jErr (errTag e)
-        | .ok ts => jOk (jList jLTok ts)
-      pure (r.mergeObj (Json.mkObj [("lex", lx)]))
+  | "query" => answerQuery j
   | _ => throw s!"bad op {op}"
 
 end Verif.C11.Driver
